@@ -22,3 +22,9 @@ def maybe(v):
 @udf(fun_id='http://ex.org/fn/pair', a='http://ex.org/fn/p_a', b='http://ex.org/fn/p_b')
 def pair(a, b):
     return [a, b]
+
+
+@udf(fun_id='http://ex.org/fn/evens', v='http://ex.org/fn/p_v')
+def evens(v):
+    # a list-valued function that is EMPTY for some values only: [v] for values of even length, [] for the others
+    return [v] if len(v) % 2 == 0 else []
